@@ -1,0 +1,221 @@
+//! verification hook points, only compiled with `--cfg may_verif`
+//!
+//! `point(site, obj)` is called between two atomic steps of the algorithms.
+//! It does nothing unless a hook function was installed with `set_hook`.
+//! The hook runs on the calling OS thread and must not call back into may.
+
+use std::sync::atomic::{AtomicUsize, Ordering};
+
+pub type Hook = fn(site: u32, obj: usize);
+
+static HOOK: AtomicUsize = AtomicUsize::new(0);
+
+pub fn set_hook(h: Hook) {
+    HOOK.store(h as usize, Ordering::SeqCst);
+}
+
+#[inline]
+pub fn point(site: u32, obj: usize) {
+    let h = HOOK.load(Ordering::Relaxed);
+    if h != 0 {
+        let f: Hook = unsafe { std::mem::transmute::<usize, Hook>(h) };
+        f(site, obj);
+    }
+}
+
+macro_rules! sites {
+    ($($name:ident = $val:expr,)*) => {
+        pub mod site {
+            $(pub const $name: u32 = $val;)*
+            pub const NAMES: &[(&str, u32)] = &[$((stringify!($name), $val),)*];
+            pub const MAX: u32 = 256;
+        }
+    };
+}
+
+sites! {
+    // may_queue::mpsc
+    MPSC_PUSH_RESERVED = 1,
+    MPSC_PUSH_WRITTEN = 2,
+    MPSC_PUSH_BOUNDARY = 3,
+    MPSC_PUSH_BOUNDARY_LINKED = 4,
+    MPSC_POP_EMPTYCHECK = 5,
+    MPSC_POP_BOUNDARY = 6,
+    MPSC_BULK_FAST_END = 7,
+    MPSC_BULK_SLOW = 8,
+    // may_queue::spsc
+    SPSC_PUSH_WRITTEN = 10,
+    SPSC_PUSH_NEWBLOCK = 11,
+    SPSC_ALLOC_NODE = 12,
+    SPSC_POP_LOADED = 13,
+    SPSC_POP_BOUNDARY = 14,
+    SPSC_BULK_LOADED = 15,
+    // may_queue::spmc
+    SPMC_PUSH_WRITTEN = 20,
+    SPMC_PUSH_NEWBLOCK = 21,
+    SPMC_POP_LOADED = 22,
+    SPMC_POP_CLAIMED = 23,
+    SPMC_POP_LAST = 24,
+    SPMC_LPOP_LOADED = 25,
+    SPMC_LPOP_CLAIMED = 26,
+    SPMC_LPOP_LAST = 27,
+    SPMC_BULK_LOADED = 28,
+    SPMC_BULK_CLAIMED = 29,
+    SPMC_BULK_LAST = 30,
+    SPMC_LPOP_SKIP = 31,
+    SPMC_POP_READ = 32,
+    SPMC_BULK_READ = 33,
+    // may_queue::mpsc_list_v1
+    LIST_PUSH_SWAPPED = 35,
+    LIST_PUSH_LINKED = 36,
+    LIST_POP_WAIT_NEXT = 37,
+    LIST_POP_NEXT = 38,
+    LIST_POPIF_PEEKED = 39,
+    LIST_REMOVE_BEFORE_UNLINK = 40,
+    LIST_REMOVE_UNLINKED = 41,
+    // may::yield_now / coroutine_impl / scheduler / join / cancel / pool
+    YIELD_WITH_ENTER = 50,
+    YIELD_WITH_BEFORE = 51,
+    YIELD_SUBSCRIBE = 52,
+    IOTHREAD_SENT = 53,
+    RUN_CO_ENTER = 54,
+    RUN_CO_EXIT = 55,
+    SPAWN_BEFORE_SCHEDULE = 56,
+    CO_DONE_BEFORE_TRIGGER = 57,
+    CO_PANIC_BEFORE_TRIGGER = 58,
+    SCHED_GLOBAL_PUSHED = 59,
+    SCHED_AFTER_POP_NONE = 60,
+    SCHED_BEFORE_STEAL = 61,
+    SCHED_COLLECT = 62,
+    TIMER_FIRE = 63,
+    TIMER_FIRE_EMPTY = 64,
+    JOIN_TRIGGER_STORED = 65,
+    JOIN_WAIT_REGISTERED = 66,
+    CANCEL_BIT_SET = 67,
+    CANCEL_TOOK = 68,
+    POOL_GET = 69,
+    POOL_PUT = 70,
+    SLEEP_SUB_ARMED = 71,
+    // may::park
+    PARK_CHECKED = 75,
+    PARK_SUB_ENTER = 76,
+    PARK_SUB_ARMED = 77,
+    PARK_SUB_STORED = 78,
+    PARK_SUB_RECHECKED = 79,
+    PARK_SUB_CANCELSET = 80,
+    PARK_UNPARK_SWAPPED = 81,
+    PARK_RESUMED = 82,
+    PARK_AFTER_CLEAR = 83,
+    // may::timeout_list
+    TL_ADD_PUSHED = 85,
+    TL_INSTALL_BH = 86,
+    TL_SCHED_POPPED = 87,
+    TL_SCHED_REPUSH = 88,
+    TT_ADD_BEFORE_WAKE = 89,
+    TT_RUN_REGISTERED = 90,
+    TT_BEFORE_PARK = 91,
+    TT_DEL_PUSHED = 92,
+    // may::sync::blocking
+    SYNCBLOCKER_UNPARK_MID = 95,
+    THREADPARK_BEFORE_WAIT = 96,
+    THREADPARK_UNPARK_SWAPPED = 97,
+    // may::sync::mutex
+    MUTEX_LOCK_PUSHED = 100,
+    MUTEX_LOCK_COUNTED = 101,
+    MUTEX_UNLOCK_SUBBED = 102,
+    MUTEX_UNPARKED = 103,
+    MUTEX_CANCEL_CHECK = 104,
+    MUTEX_CANCEL_SETREL = 105,
+    // may::sync::semphore
+    SEM_WAIT_PUSHED = 110,
+    SEM_WAIT_SUBBED = 111,
+    SEM_WAKEUP_POPPED = 112,
+    SEM_WAKE_UNPARKED = 113,
+    SEM_TIMEOUT_CHECK = 114,
+    SEM_TIMEOUT_SETREL = 115,
+    SEM_POST_ADDED = 116,
+    // may::sync::sync_flag
+    FLAG_WAIT_PUSHED = 120,
+    FLAG_WAIT_SUBBED = 121,
+    FLAG_FIRE_STORED = 122,
+    FLAG_TIMEOUT_CHECK = 123,
+    FLAG_TIMEOUT_SETREL = 124,
+    FLAG_WAKE_POPPED = 125,
+    // may::sync::condvar
+    CV_WAIT_PUSHED = 130,
+    CV_WAIT_UNLOCKED = 131,
+    CV_WAIT_WOKEN = 132,
+    CV_ERR_CHECK = 133,
+    CV_ERR_SETREL = 134,
+    CV_NOTIFY_POPPED = 135,
+    CV_NOTIFY_UNPARKED = 136,
+    // may::sync::rwlock
+    RW_TRYLOCK_LOADED = 140,
+    RW_LOCK_PUSHED = 141,
+    RW_LOCK_COUNTED = 142,
+    RW_UNLOCK_SUBBED = 143,
+    RW_UNPARKED = 144,
+    RW_READ_GOT_RLOCK = 145,
+    RW_CANCEL_CHECK = 146,
+    RW_CANCEL_SETREL = 147,
+    RW_READ_UNLOCK_GOT_RLOCK = 148,
+    // may::sync::mpsc
+    CH_MPSC_SEND_PUSHED = 150,
+    CH_MPSC_RECV_REGISTERED = 151,
+    CH_MPSC_TRY_EMPTY = 152,
+    CH_MPSC_DROPCHAN_SUBBED = 153,
+    CH_MPSC_DROPPORT_FLAGGED = 154,
+    // may::sync::spsc
+    CH_SPSC_SEND_PUSHED = 160,
+    CH_SPSC_RECV_EMPTY = 161,
+    CH_SPSC_SUB_STORED = 162,
+    CH_SPSC_TRECV_STORED = 163,
+    CH_SPSC_DROPCHAN_ZEROED = 164,
+    // may::sync::mpmc
+    CH_MPMC_SEND_PUSHED = 170,
+    CH_MPMC_RECV_EMPTY = 171,
+    CH_MPMC_RECV_PERMIT = 172,
+    CH_MPMC_DROPTX_SUBBED = 173,
+    CH_MPMC_DROPRX_SUBBED = 174,
+    // may::cqueue / scoped
+    CQ_SEND_SUB_PUSHED = 180,
+    CQ_DROP_PUSHED = 181,
+    CQ_DROP_SUBBED = 182,
+    CQ_POLL_EMPTY = 183,
+    CQ_POLL_REGISTERED = 184,
+    CQ_POLL_BOTTOM = 185,
+    CQ_DROP_CANCELLED = 186,
+    SCOPE_JOIN_BEFORE = 187,
+    // may::io (unix)
+    IO_READ_EAGAIN = 200,
+    IO_READ_SUB_ARMED = 201,
+    IO_READ_SUB_STORED = 202,
+    IO_WRITE_EAGAIN = 203,
+    IO_WRITE_SUB_ARMED = 204,
+    IO_WRITE_SUB_STORED = 205,
+    IO_WRITEV_EAGAIN = 206,
+    IO_WRITEV_SUB_STORED = 207,
+    IO_PEEK_EAGAIN = 208,
+    IO_PEEK_SUB_STORED = 209,
+    IO_ACCEPT_EAGAIN = 210,
+    IO_ACCEPT_SUB_STORED = 211,
+    IO_CONNECT_SUB_STORED = 212,
+    IO_UDP_RECV_EAGAIN = 213,
+    IO_UDP_RECV_SUB_STORED = 214,
+    IO_UDP_SEND_EAGAIN = 215,
+    IO_UDP_SEND_SUB_STORED = 216,
+    IO_UNIX_ACCEPT_SUB_STORED = 217,
+    IO_UNIX_RECV_SUB_STORED = 218,
+    IO_UNIX_SEND_SUB_STORED = 219,
+    IO_UNIX_CONNECT_SUB_STORED = 220,
+    IO_WAITIO_SUB_STORED = 221,
+    EP_AFTER_WAIT = 230,
+    EP_EVENT_FLAGGED = 231,
+    EP_EVENT_TOOK = 232,
+    EP_BEFORE_TIMERS = 233,
+    EP_ADD_TIMER_PUSHED = 234,
+    IO_TIMEOUT_HANDLER_ENTER = 235,
+    IO_TIMEOUT_TIMER_TAKEN = 236,
+    IO_SCHEDULE_TOOK = 237,
+    IO_CANCEL_TOOK = 238,
+}
